@@ -116,4 +116,60 @@ PROPS = {
         "mandatory_probes": ["blocked_send", "store_save_failed", "handler_refused_outgoing", "inbound_dispatch_checked", "outgoing_handlers_ran"],
         "assumptions": ASSUME,
     },
+    "C04": {
+        "scenarios": ["C04"],
+        "level": "exploration",
+        "quick_runs": {"C04": 2000},
+        "thorough_runs": {"C04": 400000},
+        "thorough_wall": 900,
+        "rule": "each run = role x handler buffer {0,1,2,10} x conn buffer {0,1,10} x 1-4 simultaneous connections; per connection 0-40 generated well-formed "
+                "messages (20 B-8 KiB, 9 MsgTypes, values containing 10= lookalikes) + optional trailing proper prefix, the concatenated stream cut whole / per byte / at "
+                "random / at framing-sensitive offsets, chunks of all connections interleaved in a drawn order with drawn yields, settles and delays, optional slow consumer; "
+                "then 1-4 tasks x 1-6 unique outbound hand-offs per connection with an optionally stalled reader; oracles: prefix invariant at every settle, equality at the end, at "
+                "ServeIncoming and at the incoming callback, no overlap, no cross-talk; outbound whole/once/ordered by (return<invoke); distinct = distinct context-switch-sequence hash; "
+                "non-trivial = a preemption happened",
+        "mandatory_probes": ["boundary_inside_checksum_tag", "boundary_inside_checksum_digits", "many_messages_one_read", "one_byte_reads", "multi_connection",
+                             "buffer_zero", "trailing_partial", "outbound_checked", "reader_stalled"],
+        "assumptions": ASSUME,
+    },
+    "C05": {
+        "scenarios": ["C05"],
+        "level": "exploration",
+        "quick_runs": {"C05": 2000},
+        "thorough_runs": {"C05": 300000},
+        "thorough_wall": 900,
+        "rule": "each run = role x buffer {0,1,10} x interval 1-3 s x delay mode (none / yields / fake-time sleeps inside counter store, message store and outgoing "
+                "handler) x 1-8 concurrent sender tasks x 1-30 messages (burst / ms apart / around heartbeat periods) x 0-7 inbound TestRequests and damaged Heartbeats "
+                "(replies and Rejects originate on the inbound goroutine) + timer heartbeats, 30% of runs with a second connection and Session over the same counter store; "
+                "oracle on the peer-side capture split by the independent tokenizer: 34 = start+k, 49/56, 52 format and range; distinct = distinct context-switch-sequence hash; "
+                "non-trivial = a preemption happened",
+        "mandatory_probes": ["concurrent_senders", "library_heartbeats_interleaved", "reject_raced", "continued_from_stored_counter"],
+        "assumptions": ASSUME,
+    },
+    "C08": {
+        "scenarios": ["C08"],
+        "level": "exploration",
+        "quick_runs": {"C08": 1500},
+        "thorough_runs": {"C08": 200000},
+        "thorough_wall": 900,
+        "rule": "each run = role x buffer x N in {1,2,3,5,7,10,20,40,60} s x logon at a drawn sub-second phase, then 3-22 actions placed relative to the running deadline "
+                "d = last outbound + N: send at d-N/10-1ms / d-1ms / d / d+1ms, bursts, idle stretches of 3-50 periods, random sends; inbound keep-alives at drawn times; "
+                "zero transport latency, no injected delays; oracle over the simulated arrival times of every outbound message (upper gap bound N+N/10, no unsolicited "
+                "Heartbeat within N of an earlier outbound message); distinct = distinct context-switch-sequence hash; non-trivial = a preemption happened",
+        "mandatory_probes": ["send_1ms_before_deadline", "send_at_deadline", "send_1ms_after_deadline", "send_before_last_tick", "burst", "idle_30_periods", "timer_heartbeat"],
+        "assumptions": ASSUME,
+    },
+    "C09": {
+        "scenarios": ["C09"],
+        "level": "exploration",
+        "quick_runs": {"C09": 1500},
+        "thorough_runs": {"C09": 200000},
+        "thorough_wall": 900,
+        "rule": "each run = role x buffer x N x logon phase x inbound pattern in {total silence, silence ending 1 ms before the first deadline, an answer of a drawn type 1 ms after "
+                "the TestRequest or at a drawn time (incl. T-1ms) in the second period, steady traffic of mixed types with period <= N for 20-300 periods}; timeline oracle with "
+                "T = N + max(1,N/20): first TestRequest in [t0+T, t0+T+T/10], disconnect (peer EOF + notification) in [t1+T, t1+T+T/10], no disconnect within T of an answer, "
+                "zero TestRequests and disconnects under steady traffic; distinct = distinct context-switch-sequence hash; non-trivial = a preemption happened",
+        "mandatory_probes": ["testrequest_sent", "disconnected_for_silence", "answer_cancelled_disconnect", "steady_periods", "inbound_1ms_before_first_deadline"],
+        "assumptions": ASSUME,
+    },
 }
